@@ -9,6 +9,8 @@ mod endpoint_addr;
 mod key;
 #[cfg(feature = "relay")]
 mod relay_url;
+#[cfg(feature = "verif-hooks")]
+pub mod verif_hooks;
 
 #[cfg(feature = "key")]
 pub use self::endpoint_addr::{CustomAddr, EndpointAddr, TransportAddr};
